@@ -190,15 +190,17 @@ def check_state(ctx, label, kind, obj, fresh_fn, case, hdr_len, feat):
     return good
 
 
-def k_pdu_history(ctx, kind, cfg, p, steps, start="constructed"):
+def k_pdu_history(ctx, kind, cfg, p, steps, start="constructed", conf_dir=None):
     X = C.lib()
-    case = {"k": "pdu_history", "kind": kind, "cfg": cfg, "p": p, "steps": steps, "start": start}
+    case = {"k": "pdu_history", "kind": kind, "cfg": cfg, "p": p, "steps": steps, "start": start, "conf_dir": conf_dir}
     feat = f"{kind}/crc={cfg['crc']}"
     ctx.case(f"pdu_history/{kind}/crc={cfg['crc']}/{start}", (kind, json.dumps(cfg, sort_keys=True), json.dumps(p, sort_keys=True), json.dumps(steps), start),
              nontrivial=len(steps) > 0, sample=case if len(json.dumps(case)) < 1500 else None)
     hl = lambda raw: R.header_len(cfg["idw"], cfg["seqw"])  # noqa: E731
     # ---- caller inputs
-    conf, wlog = watched_config(cfg, 1 - C.DIRECTION.get(kind, 0))
+    # the caller's configuration carries either the direction this PDU kind needs or the opposite one
+    conf, wlog = watched_config(cfg, (1 - C.DIRECTION.get(kind, 0)) if conf_dir is None else conf_dir)
+    ctx.table("caller_config_direction", "as_needed_by_the_pdu" if int(conf.direction) == C.DIRECTION.get(kind, 0) else "opposite")
     before_conf = fp(conf)
     args_before = None
     ok, built = attempt(_build_with_inputs, kind, conf, cfg, p)
@@ -211,6 +213,9 @@ def k_pdu_history(ctx, kind, cfg, p, steps, start="constructed"):
     ctx.check("caller_inputs", fp(conf) == before_conf, "pdu_config_modified_by_pack", kind, case, writes=wlog[:4])
     after_args = [fp(x) for x in inputs]
     ctx.check("caller_inputs", after_args == args_before, "parameter_object_modified", kind, case, before=repr(args_before)[:300], after=repr(after_args)[:300])
+    # ---- a sibling built from the same caller configuration (own parameter objects) that nobody touches afterwards
+    oks, sib = attempt(_build_with_inputs, kind, conf, cfg, p)
+    sib = sib[0] if oks else None
     # ---- history
     if start == "decoded":
         ok, raw0 = attempt(pdu.pack)
@@ -231,6 +236,16 @@ def k_pdu_history(ctx, kind, cfg, p, steps, start="constructed"):
         c2, p2 = dict(cur_cfg), copy.deepcopy(cur_p)
         if not check_state(ctx, f"after:{step[0]}", kind, pdu, lambda: C.build(kind, c2, p2), dict(case, failing_step=i), hl, feat):
             return
+    if sib is not None and steps:
+        # the untouched sibling (empty setter history) must still be coherent and equal to a fresh object with the original values
+        ctx.table("sibling_checked", kind)
+        if check_state(ctx, "untouched_sibling_built_from_the_same_config", kind, sib, lambda: C.build(kind, dict(cfg), copy.deepcopy(p)), case, hl, feat):
+            if fp(conf) != before_conf:
+                ctx.note(f"caller PduConfig written through a setter of the {kind} PDU built from it (informational: {wlog[:2]})")
+        # and a PDU built from the caller's configuration now is what the caller configured
+        ok3, late = attempt(_build_with_inputs, kind, conf, cfg, p)
+        if ok3:
+            check_state(ctx, "object_built_later_from_the_same_config", kind, late[0], lambda: C.build(kind, dict(cfg), copy.deepcopy(p)), case, hl, feat)
 
 
 def inputs_snapshot(kind, cfg, p):
@@ -411,7 +426,7 @@ def run(ctx):
                     cfg = C.rand_cfg(r, crc=crc, large=r.getrandbits(1))
                     p = {"keep_alive": {"progress": 77}, "nak": {"start": 1, "end": 99, "segments": [[3, 4]]},
                          "eof": {"cond": r.choice((0, 4)), "checksum": "01020304", "size": 5, "fault_id": None}}[kind]
-                    k_pdu_history(ctx, kind, cfg, p, [list(s) for s in hist], start=("decoded" if (i + crc) % 3 == 0 else "constructed"))
+                    k_pdu_history(ctx, kind, cfg, p, [list(s) for s in hist], start=("decoded" if (i + crc) % 3 == 0 else "constructed"), conf_dir=(None, 0, 1)[i % 3])
     ctx.exhaustive.append(f"all histories up to depth {depth} over the Keep Alive file-flag, NAK file-flag/segment-request and EOF fault-location alphabets, CRC off and on")
     # random histories for every class with setters
     for j in range(ctx.n(2500, 250_000)):
@@ -427,7 +442,7 @@ def run(ctx):
                 p["end"] &= 0xFFFFFFFF
                 p["segments"] = None if p["segments"] is None else [[a & 0xFFFFFFFF, b & 0xFFFFFFFF] for a, b in p["segments"]]
         steps = [rand_step(r, kind, cfg, p) for _ in range(r.randrange(1, MAX_STEPS + 1))]
-        k_pdu_history(ctx, kind, cfg, p, steps, start=r.choice(("constructed", "constructed", "decoded")))
+        k_pdu_history(ctx, kind, cfg, p, steps, start=r.choice(("constructed", "constructed", "decoded")), conf_dir=r.choice((None, 0, 1)))
     # caller inputs of the PDU kinds without setters
     for j in range(ctx.n(200, 10_000)):
         kind = r.choice(("ack", "prompt"))
